@@ -24,6 +24,23 @@ def toMs : List String → List String
   | ["chtimesms", p, t] => ["chtimes", p, t]
   | l => l
 
+/-- `readthrough p` / `readthroughof p`: afero.ReadFile — Open (or, for `readthroughof`, OpenFile(O_RDONLY)),
+    read everything, Close; the temporary handle leaves the table again -/
+def readThrough (s : St) (viaOpenFile : Bool) (p : String) : St × String :=
+  match arg p with
+  | none => (s, "bad-op")
+  | some p =>
+    let k := keyOfStr p
+    if (s.c.s.l.lookup k).isNone ∧ (s.c.s.b.lookup k).isNone then (s, "rd absent") else
+    let cls := match Cache.cacheStatus s.c s.dur k with
+      | .miss => "miss" | .stale => "stale" | .hit => "hit" | .local_ => "local"
+    let n := s.c.hs.length
+    match Cache.step s.dur s.c (if viaOpenFile then .openFile p 0 0 else .open_ p) with
+    | (c1, .handle h _) =>
+      let (c2, _) := Cache.step s.dur c1 (.hClose h)
+      ({ s with c := { c2 with hs := c2.hs.take n } }, "rd ok " ++ cls)
+    | (c1, _) => ({ s with c := c1 }, "rd fail")
+
 def stepLine (s : St) (line : String) : St × String :=
   match tokens line with
   | ["case", "cache-mem", d] => match parseInt d with
@@ -32,20 +49,8 @@ def stepLine (s : St) (line : String) : St × String :=
   | toks =>
     if !s.modelled then (s, "unmodelled") else
     match toks with
-    | ["readthrough", p] => match arg p with
-      | none => (s, "bad-op")
-      | some p =>
-        let k := keyOfStr p
-        if (s.c.s.l.lookup k).isNone ∧ (s.c.s.b.lookup k).isNone then (s, "rd absent") else
-        let cls := match Cache.cacheStatus s.c s.dur k with
-          | .miss => "miss" | .stale => "stale" | .hit => "hit" | .local_ => "local"
-        let n := s.c.hs.length
-        -- afero.ReadFile: Open, read everything, Close; the temporary handle leaves the table again
-        match Cache.step s.dur s.c (.open_ p) with
-        | (c1, .handle h _) =>
-          let (c2, _) := Cache.step s.dur c1 (.hClose h)
-          ({ s with c := { c2 with hs := c2.hs.take n } }, "rd ok " ++ cls)
-        | (c1, _) => ({ s with c := c1 }, "rd fail")
+    | ["readthrough", p] => readThrough s false p
+    | ["readthroughof", p] => readThrough s true p
     | ["cohere"] => (s, "cohere ok")
     | ["snapshot"] => (s, "snap B{" ++ snapshot s.c.s.b ++ "} L{" ++ snapshot s.c.s.l ++ "}")
     | t0 :: rest =>
